@@ -4,8 +4,11 @@ from vlib import core, cluster, netrunner
 from vlib.runner import Failure
 
 PID = "C04"
-LEAN_MODULE = "NunVerif.Props.C04"
-THEOREMS = ["Nun.C04_replicas_agree_on_writes", "Nun.setValue_agree", "Nun.C04_finding_remove_depends_on_persistence", "Nun.C04_same_messages_same_state", "Nun.C04_fanout_reaches_every_secondary", "Nun.C14_secondary_never_fans_out", "Nun.C14_fanout_bounded"]
+LEAN_MODULE = "NunVerif.Props.C04Wire"
+THEOREMS = ["Nun.C04_replicas_agree_on_writes", "Nun.setValue_agree", "Nun.C04_finding_remove_depends_on_persistence", "Nun.C04_same_messages_same_state", "Nun.C04_fanout_reaches_every_secondary", "Nun.C14_secondary_never_fans_out", "Nun.C14_fanout_bounded",
+            "Nun.C04_writes_converge", "Nun.C04_quiescent_agreement", "Nun.C04_write_end_to_end", "Nun.good_write", "Nun.primary_set_emits", "Nun.secondary_applies_set",
+            "Nun.parse_replicateMsg", "Nun.parse_replicateRemoveMsg", "Nun.parse_replicateIncMsg", "Nun.parse_rpLine", "Nun.Bytes.parseI32_ofInt", "Nun.Bytes.parseU64_ofNat",
+            "Nun.C04_finding_terminator_in_last_field", "Nun.C04_fanout_is_one_critical_section", "Nun.C04_forward_is_one_critical_section"]
 
 OPS = ["set a {v}", "set b {v}", "set a two words {v}", "remove a", "remove b", "increment n", "increment n 5", "increment n 0", "increment m{v} 0", "increment n -3", "remove n", "set-safe a {ver} s{v}", "create-user u{v} pw", "set-permissions u1 rw a*",
        "snapshot false", "create-db d{v} tk", "set n 7", "resolve {v} t r 1 res{v}", "SNAP", "SNAP"]
@@ -184,7 +187,7 @@ def scenarios(tier):
     # two concurrent clients on the primary (the quantifier's second case), lock-level schedules
     import random
     r = random.Random(17)
-    scheds = ["0", "1", "01" * 8, "10" * 8, "0011" * 4, "1100" * 4, "000111" * 3, "111000" * 3] + ["".join(r.choice("01") for _ in range(16)) for _ in range(12 if tier == "quick" else 120)]
+    scheds = ["0", "1", "0" + "1" * 10 + "0" * 10, "1" + "0" * 10 + "1" * 10, "00" + "1" * 10 + "0" * 10, "11" + "0" * 10 + "1" * 10, "0110" * 4, "1001" * 4, "01" * 8, "10" * 8, "0011" * 4, "1100" * 4, "000111" * 3, "111000" * 3] + ["".join(r.choice("01") for _ in range(16)) for _ in range(12 if tier == "quick" else 120)]
     for (ca, cb) in (("increment n", "increment n 10"), ("increment n", "set n 100"), ("set-safe a 1 A", "increment a"), ("set a X", "remove a")):
         for sc in scheds: S.append((f"k2-par-{ca.split(' ')[0]}-{cb.split(' ')[0]}-{sc}", scenario_concurrent_clients(2, ca, cb, sc)))
     return S
